@@ -188,6 +188,31 @@ func init() {
 	reg(P+"EventMark", func(e *Exec, _ *ssa.Function, a []Value) Value {
 		return mkInt64(int64(len(e.env.events)))
 	})
+	// StoreBranch / StoreDiscard: a branched (cache) context whose writes are thrown away: every modelled
+	// collection and the event list are restored; ordinary Go memory (the interpreter's heap) is not.
+	reg(P+"StoreBranch", func(e *Exec, _ *ssa.Function, a []Value) Value {
+		snap := make([][]collEntry, len(e.env.colls))
+		for i, c := range e.env.colls {
+			snap[i] = append([]collEntry(nil), c.entries...)
+		}
+		e.env.snaps = append(e.env.snaps, storeSnap{colls: snap, events: len(e.env.events)})
+		return nil
+	})
+	reg(P+"StoreDiscard", func(e *Exec, _ *ssa.Function, a []Value) Value {
+		if len(e.env.snaps) == 0 {
+			panic(abortRun{kind: "error", msg: "nd.StoreDiscard without nd.StoreBranch"})
+		}
+		sn := e.env.snaps[len(e.env.snaps)-1]
+		e.env.snaps = e.env.snaps[:len(e.env.snaps)-1]
+		for i, ents := range sn.colls {
+			e.env.colls[i].entries = ents
+		}
+		for i := len(sn.colls); i < len(e.env.colls); i++ {
+			e.env.colls[i].entries = nil
+		}
+		e.env.events = e.env.events[:sn.events]
+		return nil
+	})
 	reg(P+"SameEvents", func(e *Exec, _ *ssa.Function, a []Value) Value {
 		a0, a1 := e.concreteInt(a[0], "nd.SameEvents"), e.concreteInt(a[1], "nd.SameEvents")
 		b0, b1 := e.concreteInt(a[2], "nd.SameEvents"), e.concreteInt(a[3], "nd.SameEvents")
